@@ -22,6 +22,7 @@ EXPLANATION = (
     'loops and per-transfer functions), shape of the transfer chunk size in limited mode (max(L // (k*N), 1), k >= 4), lock-set rule for the two debt fields and the '
     'sleep, and statelessness / single unconditional pause / delegation shape of the file wrapper. Rules C20.R1-R5.'
     ' Added with the seeded-defect rounds: the transfer unit is divided by the concurrency, PAUSE_LIMIT >= threshold + 1/k, adapters move streams in pieces of chunk_size, debt fields addressed by attribute path.'
+    ' Round 6: every call is charged (no early return before debt += seconds), the debt is credited only with time measured around the sleep of the same call; the ledger is followed through a delegate object.'
 )
 NOT_DECIDED = 'the bound bytes(window T) <= L*T + burst itself (arithmetic over timestamps and schedules)'
 TRUSTED = ['time.sleep / perf_counter', 'threading.Lock', 'CPython ast']
